@@ -691,3 +691,34 @@ func sortedMemberIDs(ams []tsstypes.AssignedMember) []uint64 {
 	sort.Slice(o, func(i, j int) bool { return o[i] < o[j] })
 	return o
 }
+
+// TSSParamChurn lets governance change the tss parameters mid-run (queue limit, signing period, attempts): limits that were
+// satisfied when state was written may be exceeded by existing state afterwards.
+type TSSParamChurn struct {
+	Rate int
+}
+
+func (p *TSSParamChurn) OnBlock(e *Env, blk *world.BlockRecord) {}
+func (p *TSSParamChurn) Act(e *Env) {
+	if e.Draining || e.Step < 4 || !e.Ch.Bool("tss.churn", p.Rate) {
+		return
+	}
+	gov := getGov(e)
+	if gov == nil {
+		return
+	}
+	cur := e.App().TSSKeeper.GetParams(e.Ctx())
+	np := cur
+	switch e.Ch.Intn("tss.churn.what", 3) {
+	case 0:
+		np.MaxDESize = uint64(e.Ch.Range("tss.churn.maxde", 1, 10))
+	case 1:
+		np.SigningPeriod = uint64(e.Ch.Range("tss.churn.period", 1, 8))
+	case 2:
+		np.MaxSigningAttempt = uint64(e.Ch.Range("tss.churn.attempt", 1, 4))
+	}
+	if np.Validate() == nil && np != cur {
+		gov.Propose(e, "params_tss", nil, &tsstypes.MsgUpdateParams{Authority: govAuthority, Params: np})
+		e.St.Fault("tss_params_changed_by_governance")
+	}
+}
